@@ -654,6 +654,13 @@ func TestC08(t *testing.T) {
 						members = append(members, m)
 						l = append(l, m.Interface().(ap.Item))
 					}
+					// "+link": a link in front of the members and an IRI behind them - whatever the helper does with those two (skip them, refuse
+					// the list), the list it was handed holds the same members in the same places afterwards
+					mixed := size == 3
+					if mixed {
+						l = append(append(ap.ItemCollection{&ap.Link{Type: ap.MentionType, Href: "https://example.com/mentioned"}}, l...), ap.IRI("https://example.com/trailing"))
+					}
+					before := append(ap.ItemCollection{}, l...)
 					var arg ap.Item = l
 					if holder == "*ItemCollection" {
 						arg = &l
@@ -673,8 +680,21 @@ func TestC08(t *testing.T) {
 					switch {
 					case pi != nil:
 						r.Report("lists", cell, key+"panic@"+pi.Frame, pi.Value, cell)
+					case len(l) != len(before):
+						r.Report("lists", cell, key+"list-changed", fmt.Sprintf("the list held %d members, after the call it holds %d", len(before), len(l)), cell)
+					case func() bool {
+						for k := range before {
+							if l[k] != before[k] {
+								return true
+							}
+						}
+						return false
+					}():
+						r.Report("lists", cell, key+"list-changed", "after the call the list holds other members, or the same in other places: "+vocab.Dump(l), cell)
 					case len(seen) == 0:
 						// refused, or not a helper that walks lists: acceptable
+					case mixed:
+						// with a link and an IRI among the members the number of calls is the helper's affair
 					case len(seen) != size:
 						r.Report("lists", cell, key+"calls", fmt.Sprintf("the callback ran %d times for a list of %d members", len(seen), size), cell)
 					default:
